@@ -1,6 +1,7 @@
 package vanguard
 
 import (
+	"bytes"
 	"net/http"
 	"strconv"
 )
@@ -142,6 +143,7 @@ func hC09Req() {
 		got, _ := refParseBackendPrefix(target, codec, comp, wb.rec.body)
 		clientFrames, _ := refSplitFrames(stream) // frames the client sent completely (valid or not)
 		verifAssert(len(got) <= len(clientFrames), "C09: backend is never handed a complete message the client did not finish")
+		verifAssert(len(got) <= len(sent), "C02: every complete message handed to the backend is a valid message of the client's stream (no frame with invalid flags is passed on as data)")
 		for i := range got {
 			if i < len(sent) {
 				verifAssert(bytesEq(got[i], sent[i]), "C09: messages handed to the backend are the client's")
@@ -386,6 +388,10 @@ func hC09UnaryCut() {
 		cfg.client, cfg.svcProtos = cfConnectStream, []Protocol{ProtocolGRPC}
 		cfg.kind = fkBidi
 	}
+	if verifChoose("otherCodec", 2) == 1 {
+		// the response is decoded and re-encoded instead of only re-framed
+		cfg.svcCodecs = []string{CodecJSON}
+	}
 	p := newPipe(cfg)
 	if !p.buildOK {
 		return
@@ -396,12 +402,28 @@ func hC09UnaryCut() {
 	if target == ProtocolGRPC {
 		whole = appendFrame(nil, 0, payload)
 	}
-	cut := verifChoose("delivered", len(whole)+1)
+	// delivered: the first k bytes of what was announced, or (backends that announce by Content-Length) all of it
+	// plus 1, 5 or 6 bytes more than announced
+	announced := len(whole)
+	nDelivered := announced + 1
+	if target == ProtocolConnect {
+		nDelivered += 3
+	}
+	cut := verifChoose("delivered", nDelivered)
+	if target == ProtocolConnect && cut == announced && verifChoose("declaresMore", 2) == 1 {
+		// a complete, decodable message - but the backend had declared two bytes more
+		announced += 2
+	}
+	if cut > announced {
+		extra := []int{1, 5, 6}[cut-announced-1]
+		whole = append(append([]byte{}, whole...), bytes.Repeat([]byte{0}, extra)...)
+		cut = len(whole)
+	}
 	p.tr.methods[pipePath].handler = http.HandlerFunc(func(w http.ResponseWriter, r *http.Request) {
 		readAllSized(r.Body, 16, 100)
 		w.Header().Set("Content-Type", p.backendContentType())
 		if target == ProtocolConnect {
-			w.Header().Set("Content-Length", strconv.Itoa(len(whole)))
+			w.Header().Set("Content-Length", strconv.Itoa(announced))
 		}
 		w.WriteHeader(200)
 		if cut > 3 {
@@ -420,16 +442,23 @@ func hC09UnaryCut() {
 	verifObsInt("status", int64(p.sink.status))
 	verifObsStr("grpc-status-trailer", p.sink.trailers().Get("Grpc-Status"))
 	verifReach("unary-response-cut")
-	if cut == len(whole) {
+	if cut > announced {
+		verifReach("unary-response-longer-than-announced")
+		verifAssert(!(out.valid && out.code == 0), "C09: a unary response longer than its declared Content-Length never surfaces as success")
+		return
+	}
+	if cut == announced {
 		verifReach("unary-response-complete")
 		verifAssert(out.valid && out.code == 0 && len(out.msgs) == 1 && bytesEq(out.msgs[0], []byte("abcdefg")), "C09: a complete unary response is delivered intact")
 		return
 	}
 	if cut == 0 && target == ProtocolGRPC {
-		// no envelope was sent, so no message was announced: a gRPC backend that answers OK without any message
-		// is a different question (cardinality), left open here
+		// no envelope was sent: an OK status without the one response message a unary method has. The client
+		// (Connect unary here, or any client without envelopes) would be handed an empty body as that message.
 		verifReach("nothing-announced")
-		return
+		if cfg.kind != fkUnary {
+			return // a stream without any response message is a legitimate success
+		}
 	}
 	success := out.valid && out.code == 0
 	verifAssert(!success, "C09: a unary response cut short of its announced length never surfaces as success")
